@@ -26,6 +26,12 @@ func main() {
 	c.Assume("honest-store model for v1 supplements; post-tax-fork tax formula in the bounded ledger model")
 	c.Assume("v1 file size 0 is exercised only in the fixed era (no honest proof exists before it)")
 
+	if c.Replay != "" {
+		if !chain.Replay(c, chain.RunOpts{}) {
+			replayProof(c)
+		}
+		c.Finish()
+	}
 	for _, ver := range []string{"v2only", "v1only"} {
 		mc := chain.BaseConfig(chain.Shapes()[ver])
 		mc.Addrs = []string{"B"}
